@@ -70,7 +70,25 @@ def rules(model: Model, tier: str) -> List[RuleResult]:
     _backward_defaults(model, Dm)
     _family_tables(model, L)
     _default_merge(model, O)
-    return [G, L, C, Rr, A, N, O, K, Dm]
+    Ua = RuleResult(PROP, "C18-U", "built-in implementations of the functionals whose backward inherits the forward options (quad, solve_ivp, mcquad) tolerate options "
+                    "they do not know (`**` catch-all): a custom forward method's private options reach them in the backward pass", min_instances=9)
+    _catch_all(model, Ua)
+    return [G, L, C, Rr, A, N, O, K, Dm, Ua]
+
+
+def _catch_all(model: Model, U: RuleResult):
+    for cname in ("_Quadrature", "_SolveIVP", "_MCQuad"):
+        fc = ac.get_fncls(model, cname)
+        for t in dispatch_tables_in(model, fc.forward):
+            for k, v in t.entries:
+                r = model.resolve_expr(fc.forward.module, v)
+                if not (r and r[0] == "func"):
+                    continue
+                if r[1].kwarg() is not None:
+                    U.ok(r[1].fq, "%s: %s(..., **%s)" % (k, r[1].name, r[1].kwarg()))
+                else:
+                    U.bad(r[1], r[1].node, "built-in method %r of %s has no `**` catch-all: with a custom forward method and bck_options={'method': %r} the forward "
+                          "method's own options are inherited by the backward call and raise TypeError" % (k, cname, k))
 
 
 def _family_tables(model: Model, L: RuleResult):
@@ -142,13 +160,11 @@ def _minimize_kinds(model: Model, K: RuleResult):
         raise AnchorError("minimize: apply call vanished")
     alg = apply_calls[0].args[3] if len(apply_calls[0].args) > 3 else None
     algdef = defs.get(alg.id, [None])[0] if isinstance(alg, ast.Name) else alg
-    if not (isinstance(algdef, ast.IfExp) and isinstance(algdef.test, ast.Name)):
-        raise AnalysisError("C18-K: the algorithm family is no longer `\"minimizer\" if <flag> else \"rootfinder\"`")
-    flag = algdef.test.id
+    if not (isinstance(algdef, ast.IfExp) and isinstance(algdef.body, ast.Constant) and isinstance(algdef.orelse, ast.Constant)):
+        raise AnalysisError("C18-K: the algorithm family is no longer `\"minimizer\" if <test> else \"rootfinder\"`")
     fam_true, fam_false = ast.literal_eval(algdef.body), ast.literal_eval(algdef.orelse)
-    fdef = defs.get(flag, [])
-    if len(fdef) != 1:
-        raise AnalysisError("C18-K: flag %s is not defined exactly once" % flag)
+    fdef = [algdef.test]
+    flag = algdef.test.id if isinstance(algdef.test, ast.Name) else None
     tables = {}
     for nm in ("_RF_METHODS", "_OPT_METHODS"):
         if nm not in mod.assigns or not isinstance(mod.assigns[nm], ast.Dict):
@@ -156,6 +172,8 @@ def _minimize_kinds(model: Model, K: RuleResult):
         tables[nm] = {k.value for k in mod.assigns[nm].keys if isinstance(k, ast.Constant)}
 
     def ev(e, kind):
+        if isinstance(e, ast.Name) and e.id != "method" and len(defs.get(e.id, [])) == 1:
+            return ev(defs[e.id][0], kind)                       # a flag variable: its (single) definition
         if isinstance(e, ast.UnaryOp) and isinstance(e.op, ast.Not):
             return not ev(e.operand, kind)
         if isinstance(e, ast.BoolOp):
@@ -184,17 +202,23 @@ def _minimize_kinds(model: Model, K: RuleResult):
         else:
             K.bad(f, enclosing_stmt(fdef[0]), "%s is routed to the %s family (expected %s): the implementation receives %s" %
                   (label, fam, exp, "only the gradient instead of the (f, df/dy) pair" if exp == "minimizer" else "the (f, df) pair instead of the residual"))
-    # the forward function follows the same flag
-    ifs = [s_ for s_ in f.node.body if isinstance(s_, ast.If) and isinstance(s_.test, ast.Name) and s_.test.id == flag]
-    okf = False
-    if ifs:
-        b = [ast.unparse(x.value) for x in ifs[0].body if isinstance(x, ast.Assign)]
-        o = [ast.unparse(x.value) for x in ifs[0].orelse if isinstance(x, ast.Assign)]
-        okf = b == ["_min_fwd_fcn"] and o == ["_rf_fcn"]
+    # the forward function follows the same decision, for every method kind
+    sel = [s_ for s_ in f.node.body if isinstance(s_, ast.If) and any(isinstance(x, ast.Assign) and ast.unparse(x.value) in ("_min_fwd_fcn", "_rf_fcn") for x in s_.body + s_.orelse)]
+    okf = bool(sel)
+    why = "no branch selecting _min_fwd_fcn / _rf_fcn found"
+    if sel:
+        for kind in ("rf", "opt", "callable"):
+            arm = sel[0].body if ev(sel[0].test, kind) else sel[0].orelse
+            chosen = [ast.unparse(x.value) for x in arm if isinstance(x, ast.Assign) and ast.unparse(x.value) in ("_min_fwd_fcn", "_rf_fcn")]
+            fam = fam_true if ev(fdef[0], kind) else fam_false
+            wantf = "_min_fwd_fcn" if fam == "minimizer" else "_rf_fcn"
+            if chosen != [wantf]:
+                okf = False
+                why = "for a %s method the family is %s but the forward function is %s" % (kind, fam, chosen)
     if okf:
-        K.ok(f.fq, "the forward function is (f, df) for the minimizer family and df alone for the root-finder family, on the same flag")
+        K.ok(f.fq, "the forward function is (f, df) for the minimizer family and df alone for the root-finder family, for every method kind")
     else:
-        K.bad(f, ifs[0] if ifs else f.node, "the forward function handed to the implementation must follow the same family flag")
+        K.bad(f, sel[0] if sel else f.node, "the forward function handed to the implementation must follow the same family decision (%s)" % why)
 
 
 def _backward_defaults(model: Model, Dm: RuleResult):
